@@ -894,3 +894,67 @@ Proof.
     cbn [si_message si_first_bare si_channel_binding]. unfold scram_first_bare. cbn [si_message si_first_bare].
     split; [reflexivity|]. split; [reflexivity|]. split; [unfold gs2; rewrite app_nil_r; reflexivity|exact Tail].
 Qed.
+
+(* ------------------------------------------------------------------------------------------ *)
+(* _make_scram_init_msg never leaves its buffers: for all inputs the outcome is a message or the
+   clean refusal                                                                               *)
+Lemma init_plus_general : forall t cbdata jid rng node,
+  spec_node jid = Some node ->
+  fst (make_scram_init_msg true true (Some t) cbdata jid rng) =
+    if 56 <? zlen t + 4 then ANull else
+    match cbdata with
+    | None => ANull
+    | Some d => if 56 - (zlen t + 4) <? zlen d then ANull
+                else AOk {| si_message := client_first_of true true t node (client_nonce rng);
+                            si_first_bare := zlen t + 4;
+                            si_channel_binding := encode (gs2_header true true t ++ d) |}
+    end.
+Proof.
+  intros t cbdata jid rng node Hn. unfold make_scram_init_msg. cbn [negb]. rewrite Hn.
+  unfold rng_take. change (Z.to_nat (scram_nonce_len / 2)) with NONCE_BYTES.
+  change (scram_buf_size <? scram_nonce_len) with false. cbv iota. cbn [fst].
+  fold (client_nonce rng). set (cn := client_nonce rng). set (nd := scram_escape node).
+  change (nthz scram_msg_len_consts 0) with 8. change (nthz scram_msg_len_consts 1) with 1.
+  change (nthz scram_btl_incr 0) with 1. change (nthz scram_btl_incr 1) with 3.
+  unfold snprintf_checked.
+  assert (E : fmt_expand scram_fmt_plus [t; nd; cn] = ([112; 61] ++ t ++ [44; 44]) ++ first_bare_of node cn).
+  { transitivity ([112] ++ [61] ++ t ++ [44] ++ [44] ++ [110] ++ [61] ++ nd ++ [44] ++ [114] ++ [61] ++ cn ++ []); [reflexivity|].
+    rewrite app_nil_r. unfold first_bare_of, n_attr, r_attr. fold nd. cbn [app]. rewrite <- !app_assoc. cbn [app]. reflexivity. }
+  rewrite E.
+  pose proof (zlen_nonneg nd). pose proof (zlen_nonneg cn). pose proof (zlen_nonneg t).
+  assert (L : zlen (([112; 61] ++ t ++ [44; 44]) ++ first_bare_of node cn) = zlen t + zlen nd + zlen cn + 9).
+  { unfold first_bare_of, n_attr, r_attr. fold nd. zl. lia. }
+  rewrite L.
+  replace (zlen t + zlen nd + zlen cn + 9 <? zlen nd + zlen cn + 8 + (zlen t + 1) + 1) with true by (symmetry; apply Z.ltb_lt; lia).
+  cbn [abind]. change scram_buf_size with 56.
+  replace (zlen t + 1 + 3) with (zlen t + 4) by lia.
+  destruct (56 <? zlen t + 4) eqn:Eb; [reflexivity|]. apply Z.ltb_ge in Eb.
+  rewrite ?L.
+  replace (zlen t + zlen nd + zlen cn + 9 + 1 <? zlen t + 4) with false by (symmetry; apply Z.ltb_ge; lia).
+  replace (Z.to_nat (zlen t + 4)) with (length ([112; 61] ++ t ++ [44; 44]))
+    by (rewrite <- to_nat_zlen; f_equal; zl; lia).
+  rewrite <- app_assoc, firstn_exact.
+  destruct cbdata as [d|]; [|reflexivity].
+  destruct (56 - (zlen t + 4) <? zlen d) eqn:Ed; [reflexivity|]. apply Z.ltb_ge in Ed. cbn [abind].
+  pose proof (zlen_nonneg d).
+  replace (56 <? zlen (([112; 61] ++ t ++ [44; 44]) ++ d)) with false by (symmetry; apply Z.ltb_ge; zl; lia).
+  unfold client_first_of, gs2_header. rewrite <- !app_assoc. reflexivity.
+Qed.
+
+Definition clean {A} (r : ares A) : Prop := match r with AOk _ | ANull => True | _ => False end.
+
+Lemma init_safe : forall plus secured cbtype cbdata jid rng,
+  clean (fst (make_scram_init_msg plus secured cbtype cbdata jid rng)).
+Proof.
+  intros plus secured cbtype cbdata jid rng.
+  destruct (spec_node jid) as [node|] eqn:Hn.
+  - destruct plus.
+    + destruct secured; [|rewrite init_plus_refused by (now left); exact I].
+      destruct cbtype as [t|]; [|rewrite init_plus_refused by (right; now left); exact I].
+      rewrite (init_plus_general t cbdata jid rng node Hn).
+      destruct (56 <? zlen t + 4); [exact I|]. destruct cbdata as [d|]; [|exact I].
+      destruct (56 - (zlen t + 4) <? zlen d); exact I.
+    + rewrite (init_noplus secured cbtype cbdata jid rng node Hn). exact I.
+  - unfold make_scram_init_msg. rewrite Hn.
+    destruct plus; [destruct secured; cbn [negb]; [destruct cbtype|]|]; exact I.
+Qed.
